@@ -31,10 +31,12 @@ def main():
         cp = kani.cache_path(h, vkey, flags)
         c = kani.cache_load(cp)
         if c is not None: return c
+        if os.environ.get("VERIF_DRY"):
+            r = kani.Result(h); r.reason = "not run (dry)"; return r
         root, crate = variants[vkey]
         gb = sched.acquire(hs.get("mem", 8))
         try:
-            r = kani.run_harness(crate, os.path.join(root, "t_" + h), h, int(hs.get("timeout", 300) * scale), hs.get("mem", 8),
+            r = kani.run_harness(crate, os.path.join(root, "t_" + h), h, int(hs.get("timeout", 300) * scale), hs.get("mem", 8) * 2.5,
                                  os.path.join(logs, h + ".log"), extra=hs.get("extra"), fs=hs.get("fs", 4096))
             kani.cache_store(cp, r)
             return r
